@@ -385,7 +385,11 @@ func checkC06(c *Check) {
 			qField := quarSlots[0].field
 			setFlag := r.Assigns(func(l, rhs ast.Expr) bool {
 				s, ok := ast.Unparen(l).(*ast.SelectorExpr)
-				return ok && s.Sel.Name == "Quarantine" && strings.Contains(exprStr(s.X), "mergedRes")
+				if !ok || s.Sel.Name != "Quarantine" || !strings.Contains(exprStr(s.X), "mergedRes") || rhs == nil {
+					return false
+				}
+				tv, isConst := info.Types[rhs]
+				return isConst && tv.Value != nil && tv.Value.String() == "true" // the flag is raised, not cleared
 			})
 			world := r.F.AvoidImplying(func(atom ast.Expr) (bool, bool) {
 				if be, ok := ast.Unparen(atom).(*ast.BinaryExpr); ok && (be.Op == token.NEQ || be.Op == token.EQL) && isNilIdent(info, be.Y) {
@@ -524,6 +528,30 @@ func checkC06(c *Check) {
 				msg = "states are published although their replay failed: " + w
 			} else if !decided {
 				msg = "the result of a replay is dropped"
+			}
+		}
+		// with recipients already checked in this transaction, a lazily created state replays them before it is published
+		var rcptReplay []Pt
+		for _, l := range elemLoops(info, r.FI.Decl.Body, func(e ast.Expr) bool { return isField(info, e, "checkRunner", "checkedRcpts") }) {
+			for _, rp := range replays {
+				if n := rp.Node(); n != nil && posIn(l.Body, n.Pos()) && l.Whole {
+					rcptReplay = append(rcptReplay, r.F.LoopDone(l)...)
+				}
+			}
+		}
+		if msg == "" {
+			if len(rcptReplay) == 0 {
+				msg = "the recipients already accepted in this transaction are not replayed to a lazily created check state"
+			} else {
+				w := r.F.World(func(atom ast.Expr) (bool, bool) {
+					if sx, ok := lenZeroEdge(info, atom); ok && mentionsField(info, atom, "checkedRcpts") {
+						return sx != 0, true // recipients were checked before
+					}
+					return false, false
+				})
+				if path, f := r.F.Reach(Query{From: r.Entry(), Inclusive: true, Target: isPt(publish), Avoid: isPt(rcptReplay), AvoidEdge: w}); f {
+					msg = "with recipients already checked, a new check state is published without having seen them (a per-recipient verdict of that check is never produced for the earlier recipients): " + r.F.Describe(path)
+				}
 			}
 		}
 		c.Hold("R4", "checkStates:replay-before-publish", r.FI.Decl.Pos(), msg == "", msg)
